@@ -697,6 +697,43 @@ static void *fe_peeker(void *arg) {
   }
   return (void *)((long)arg + 1);
 }
+/* one-shot exchanges ("futures"): each round uses a felock that the consumer initialises, and destroys and overwrites
+   as soon as it has taken the item -- legal, because mark_and_signal hands the lock over as its last act on the object */
+static struct { myth_felock_t fe; volatile long item; } *OS;
+static volatile long os_ready, os_taken;
+static void *os_producer(void *arg) {
+  long rounds = (long)arg;
+  for (long k = 1; k <= rounds; k++) {
+    while (os_ready < k) { myth_yield(); mvsim_user_point(); }
+    myth_felock_lock(&OS->fe);
+    OS->item = 1000 + k;
+    mvsim_user_point();
+    myth_felock_mark_and_signal(&OS->fe, 1);
+    while (os_taken < k) { myth_yield(); mvsim_user_point(); }   /* the next round's object does not exist before */
+  }
+  return arg;
+}
+static void *os_consumer(void *arg) {
+  long rounds = (long)arg;
+  for (long k = 1; k <= rounds; k++) {
+    myth_felock_init(&OS->fe, 0);
+    OS->item = 0;
+    os_ready = k;
+    if (wl_mix(P[Q_SEED], 7300 + k) & 1) {                 /* peek first, then take the lock */
+      while (myth_felock_status(&OS->fe) != 1) { myth_yield(); mvsim_user_point(); }
+      myth_felock_lock(&OS->fe);
+    } else {
+      int rc = myth_felock_wait_and_lock(&OS->fe, 1);
+      MVH_CHECK(rc == 0, "C09-RC", "wait_and_lock returned %d", rc);
+    }
+    MVH_CHECK(OS->item == 1000 + k, "C09-ITEM", "one-shot round %ld: item %ld", k, (long)OS->item);
+    myth_felock_unlock(&OS->fe);
+    myth_felock_destroy(&OS->fe);
+    memset((void *)OS, 0xA5, sizeof *OS);                  /* the storage is reused at once */
+    os_taken = k;
+  }
+  return arg;
+}
 static void felock_run(const long *p, mvsim_runcfg *cfg, mvsim_runstats *st) {
   P = p;
   int np = (int)p[F_NP], nc = (int)p[F_NC], nr = (int)p[F_READERS];
@@ -711,7 +748,16 @@ static void felock_run(const long *p, mvsim_runcfg *cfg, mvsim_runstats *st) {
     TH[k] = myth_create(k < np ? fe_producer : k < np + nc ? fe_consumer : k < np + nc + nr ? fe_reader : fe_peeker, (void *)k);
     YIELD(i + 90);
   }
+  /* one-shot exchanges run next to the mailbox (own objects, own threads) */
+  long os_rounds = (wl_mix(P[Q_SEED], 7200) % 3 == 0) ? 3 + (long)(wl_mix(P[Q_SEED], 7201) % 12) : 0;
+  myth_thread_t ost[2];
+  if (os_rounds) {
+    if (!OS) OS = malloc(sizeof *OS);
+    os_ready = os_taken = 0;
+    ost[0] = myth_create(os_consumer, (void *)os_rounds); ost[1] = myth_create(os_producer, (void *)os_rounds);
+  }
   join_all(np + nc + nr);
+  if (os_rounds) { void *r; myth_join(ost[0], &r); myth_join(ost[1], &r); }
   if (npk) {
     /* every item has been consumed; fill the slot a last time so that the remaining peeks can complete */
     myth_felock_wait_and_lock(&FE, 0);
